@@ -128,10 +128,15 @@ def setup_case(ctx, case):
         refund_b = {pk[i]: rpk[i] for i in range(0, n, 2)}
         base = T.setup_amhl(aseed, list(pk), refund_pubkeys=dict(refund_b))
         objs = [nacl.signing.VerifyKey(k) for k in pk]
-        for form, keys_, refund_ in (('VerifyKey hops, bytes-keyed refunds', objs, dict(refund_b)),
+        for form, keys_, refund_ in (('tuple of bytes keys', tuple(pk), dict(refund_b)),
+                                     ('VerifyKey hops, bytes-keyed refunds', objs, dict(refund_b)),
                                      ('VerifyKey hops and refund values', objs, {k: nacl.signing.VerifyKey(v) for k, v in refund_b.items()})):
             try:
-                alt = T.setup_amhl(aseed, list(keys_), refund_pubkeys=refund_)
+                given = keys_ if type(keys_) is tuple else list(keys_)
+                before = list(given)
+                alt = T.setup_amhl(aseed, given, refund_pubkeys=refund_)
+                if len(given) != len(before) or any(a is not b for a, b in zip(given, before)):
+                    ctx.violation({'clause': 'setup_amhl leaves the caller\'s key container as it was'}, f'seed {sname} n={n} {form}')
                 same = alt['key'] == base['key'] and all(
                     tuple(getattr(x, 'bytes', x) for x in alt[pk[i]]) == tuple(getattr(x, 'bytes', x) for x in base[pk[i]]) for i in range(n))
             except BaseException as e:
@@ -200,7 +205,15 @@ def release_case(ctx, case):
     fl = int(flags, 16)
     # per-hop sigfields: distinct contents, and the field set rotates over all eight sigfields
     sfs = [{'sigfield%d' % (1 + (i + k) % 8): env.sym(seed, 'c18.hop%d.f%d' % (i, k), 4 + k) for k in (0, 3, 7)} for i in range(n)]
-    wits = [T.make_adapter_witness(sk[i], res[pk[i]][2], dict(sfs[i]), flags) for i in range(n)]
+    if sname == 's1':
+        # hops whose only sigfield is present but empty
+        for i in range(1, n, 2):
+            sfs[i] = {'sigfield%d' % (1 + i % 8): b''}
+    try:
+        wits = [T.make_adapter_witness(sk[i], res[pk[i]][2], dict(sfs[i]), flags) for i in range(n)]
+    except BaseException as e:
+        ctx.violation({'clause': 'every hop gets an adapter witness', 'how': 'raises'}, f'seed {sname} n={n} flags={flags}: {e!r}')
+        return
     prefix = [sum(int.from_bytes(y, 'little') & ((1 << 255) - 1) for y in ys[:i + 1]) % L for i in range(n)]
     # every adapter witness passes its hop's adapter-check script
     for i in range(n):
@@ -265,6 +278,22 @@ def release_case(ctx, case):
                     want_scalar = (prefix[j] - (int.from_bytes(y, 'little') & ((1 << 255) - 1))) % L
                     if int.from_bytes(scalar, 'little') % L != want_scalar:
                         ctx.violation({'clause': 'released scalar = (s - sa) - y'}, f'seed {sname} n={n} hop {j} with {yname}')
+                    if yname == 'y0':
+                        # other forms the decrypted signature circulates in (with its flag byte, as the lock takes it; cut short;
+                        # over-long): the release function refuses them or recovers the same scalar - never another one
+                        s64 = opened[j][:64]
+                        for form, sg in (('with flag byte', s64 + bytes.fromhex(flags)), ('63 bytes', s64[:63]), ('66 bytes', s64 + b'\x00\x00'),
+                                         ('with another flag byte', s64 + b'\x5a')):
+                            try:
+                                sc2 = T.release_left_amhl_lock(wits[j], sg, y)
+                            except BaseException:
+                                ctx.outcome('release form refused')
+                                continue
+                            ctx.ran()
+                            ctx.outcome('release form accepted')
+                            if type(sc2) is not bytes or int.from_bytes(sc2, 'little') % L != want_scalar:
+                                ctx.violation({'clause': 'released scalar = (s - sa) - y', 'signature form': form},
+                                              f'seed {sname} n={n} hop {j}: signature given {form} silently yields another scalar')
                     for i in range(n):
                         if i in st and i != j - 1:
                             continue
